@@ -286,6 +286,68 @@ CONC_INV = ["DistinctPositions", "ResponsesArePositions", "SingleDelivery", "All
 TLC_CP = "/opt/veriftools/tla/tla2tools.jar:/opt/veriftools/tla/CommunityModules-deps.jar"
 
 
+TRACE_CFG_TESTS = 'SPECIFICATION TSpec\nCONSTRAINT Track\nPOSTCONDITION Accepted\nCHECK_DEADLOCK FALSE\n'
+
+
+def run_repo_tests_as_traces(pid, tier, t0):
+    """Extension (DESIGN 4.7): the repository's own test suite, built with the event hook H3 (kept as a patch
+    under /verif/hooks and applied to a scratch copy of the working tree, never to /repo), traced and validated
+    by TestTrace.tla.  If the patch no longer applies to the tree this part is skipped with a note."""
+    import subprocess, shutil, glob
+    d = os.path.join(vf.WORK, "h3")
+    src = os.path.join(d, "repo")
+    shutil.rmtree(src, ignore_errors=True)
+    os.makedirs(d, exist_ok=True)
+    subprocess.run(["rsync", "-a", "--exclude", "target", "--exclude", ".git", "/repo/", src + "/"], check=True)
+    cov = {"states": 0, "transitions": 0, "traces_validated_against_impl": 0, "evaluations": 0, "distinct_nontrivial": 0, "samples": [], "exhaustive": False,
+           "rule": "the repository's own tests run against the working tree built with event hook H3 (construction, matcher results of the selection pass, slot, selected pattern, position, errors, verification); every test process's event log must be accepted by TestTrace.tla (first-match selection, slot ownership, positions = match counts, responder lookup, fallback table, error recording, verdict)"}
+    p = subprocess.run(["patch", "-p1", "-s", "--no-backup-if-mismatch", "-i", os.path.join(vf.VERIF, "hooks", "h3_trace.patch")], cwd=src, capture_output=True, text=True)
+    if p.returncode != 0:
+        cov["skipped"] = "hooks/h3_trace.patch does not apply to the current working tree: %s" % p.stdout[-300:]
+        cov["states"] = cov["transitions"] = 1; cov["evaluations"] = 1; cov["distinct_nontrivial"] = 2; cov["samples"] = ["skipped"]
+        return finish(pid, tier, LEVEL_MC, cov, [], t0, [])
+    tdir = os.path.join(d, "traces")
+    shutil.rmtree(tdir, ignore_errors=True)
+    os.makedirs(tdir)
+    env = dict(os.environ)
+    env["RUSTFLAGS"] = "--cfg unimock_verif"
+    env["UNIMOCK_VERIF_TRACE"] = os.path.join(tdir, "t")
+    env["CARGO_NET_OFFLINE"] = "true"
+    cmd = ["cargo", "nextest", "run", "--workspace", "--no-fail-fast", "--test-threads", "8", "--offline", "--target-dir", os.path.join(d, "target")]
+    q = subprocess.run(cmd, cwd=src, env=env, capture_output=True, text=True, timeout=3000)
+    if "error: no such command" in q.stderr or "nextest" in q.stderr and "not found" in q.stderr:
+        q = subprocess.run(["cargo", "test", "--workspace", "--no-fail-fast", "--offline", "--target-dir", os.path.join(d, "target"), "--", "--test-threads", "1"],
+                           cwd=src, env=env, capture_output=True, text=True, timeout=3000)
+    files = sorted(glob.glob(os.path.join(tdir, "*.ndjson")))
+    if not files:
+        log(q.stderr[-2000:])
+        raise ToolError("the traced test run produced no event logs")
+    out = []
+    skipped = 0
+    for f in files:
+        ev = [json.loads(x) for x in open(f) if x.strip()]
+        thr = {}
+        for e in ev:
+            if e["ev"] in ("call", "err"):
+                thr.setdefault(e["mock"], set()).add(e["thr"])
+        multi = {m for m, t in thr.items() if len(t) > 1}      # events of mocks used from several threads are logged out of order
+        skipped += len(multi)
+        out.append(json.dumps({"ev": "reset"}))
+        out += [json.dumps(e) for e in ev if e["mock"] not in multi]
+    tr = os.path.join(d, "all.ndjson")
+    open(tr, "w").write("\n".join(out) + "\n")
+    TRACE_CFG["TestTrace"] = TRACE_CFG_TESTS
+    n_events, rej, st = validate_all(tr, "testtrace_" + pid.lower(), module="TestTrace")
+    divs = [{"what": "an execution of the repository's own tests is not a behaviour of the specification at event %s" % json.dumps(r_["unmatched_event"])[:400],
+             "step": r_["position_in_execution"], "expected": "a step of tla/TestTrace.tla", "observed": r_["unmatched_event"],
+             "beh": {"kind": "test-trace", "events": r_["events"]}, "in_scope": True} for r_ in rej]
+    cov.update({"states": st, "transitions": st, "traces_validated_against_impl": len(files), "evaluations": n_events, "distinct_nontrivial": len(files),
+                "samples": [json.loads(x) for x in out[1:4]], "mocks_skipped_because_multithreaded": skipped,
+                "test_run_tail": q.stdout[-200:] + q.stderr[-300:]})
+    shutil.rmtree(os.path.join(d, "repo"), ignore_errors=True)
+    return finish(pid, tier, LEVEL_MC, cov, ["event hook H3 logs internal bookkeeping (positions, slots); it is applied to a scratch copy only and no listed property's verdict on the universe depends on it"], t0, divs)
+
+
 TRACE_CFG = {
     "ConcTrace": 'SPECIFICATION TSpec\nCONSTANTS\n  Thread <- T8\n  CounterImpl = "fetch_add"\nCONSTRAINT Track\nINVARIANT TraceSingleUse\nPOSTCONDITION Accepted\nCHECK_DEADLOCK FALSE\n',
     "ChainTrace": 'SPECIFICATION TSpec\nCONSTANTS\n  Thread <- T8\n  PushImpl = "try_insert"\n  MaxCells = 16\nCONSTRAINT Track\nINVARIANTS RefsOwn NothingLost DistinctCells\nPOSTCONDITION Accepted\nCHECK_DEADLOCK FALSE\n',
@@ -902,8 +964,11 @@ def run_property(pid, tier, t0):
         return composite(pid, tier, t0, [("sequential value chains, lending, teardown (Lifecycle.tla replay)", life),
                                          ("concurrent make_ref through a shared instance (Chain.tla, scheduler, trace validation)", lambda: run_chain_conc(pid, tier, t0))])
     if pid in ("C01", "C02", "C03", "C04"):
-        return composite(pid, tier, t0, [("enumerated behaviours (Mock.tla, replay)", mock),
-                                         ("random larger configurations (trace validation, MockTrace.tla)", lambda: run_mock_trace(pid, tier, t0))])
+        parts = [("enumerated behaviours (Mock.tla, replay)", mock),
+                 ("random larger configurations (trace validation, MockTrace.tla)", lambda: run_mock_trace(pid, tier, t0))]
+        if tier == "thorough" and pid in ("C01", "C03"):
+            parts.append(("the repository's own tests as traces (event hook H3 on a scratch copy, TestTrace.tla)", lambda: run_repo_tests_as_traces(pid, tier, t0)))
+        return composite(pid, tier, t0, parts)
     if pid == "C17":
         return run_c17(pid, tier, t0)
     if pid == "C14":
